@@ -66,7 +66,7 @@ balances_flush!(c10_balances_f0, 0);
 // every sum is a single decimal digit and the real formatting stays tractable. Row order follows the
 // map model's slot order (the property only speaks about the row *set*; the oracle builds the rows in
 // first-appearance order, which is what the model iterates in - on the real HashMap any order is fine).
-//@ id=C08 tier=thorough name=c08_aggregate timeout=5400 role=aggregate bound=3-entries,addresses-from-{a,b},values<=3,real-formatting mem=20 fn=Balances::on_complete
+//@ id=C08 tier=extra name=c08_aggregate timeout=5400 role=aggregate bound=3-entries,addresses-from-{a,b},values<=3,real-formatting mem=20 fn=Balances::on_complete
 #[kani::proof]
 #[kani::unwind(24)]
 fn c08_aggregate() {
@@ -120,7 +120,7 @@ fn c08_aggregate() {
 }
 
 // C02: file name carries start and last height
-//@ id=C02,C08 tier=thorough name=c02_balances_name timeout=5400 role=names bound=Balances,start-12,last-345 mem=20 fn=Balances::on_start,Balances::on_complete
+//@ id=C02,C08 tier=extra name=c02_balances_name timeout=5400 role=names bound=Balances,start-12,last-345 mem=20 fn=Balances::on_start,Balances::on_complete
 #[kani::proof]
 #[kani::unwind(40)]
 fn c02_balances_name() {
